@@ -156,6 +156,11 @@ func c29ShapeReorderByteEqual(base, ours, theirs *mSide, sc *mSchemaChange, ours
 	if sc == nil || sc.Kind != "reorder" {
 		return false
 	}
+	// a reorder sets no schema-change flag at all: byte-equal rows of the two sides are also
+	// taken for a convergent edit (the shape of C29-byte-equal-rows-different-schemas)
+	if c29ShapeByteEqual(base, ours, theirs, sc) {
+		return true
+	}
 	a := theirs
 	if oursChanged {
 		a = ours
